@@ -56,6 +56,7 @@ var reps = map[string][]string{
 	"bad_name!": {"bad_name!", "-x-.", "a..b"}, "name": {"name", "host", "a"}, "na.me": {"na.me", "sub.host.example", "a.b.c.d"},
 	"Name": {"Name", "HOST.Example"}, "user": {"user", "u%20ser"}, "pw": {"pw", "p:w", "p@w"}, "a b": {"a b", "a%20b"},
 	"h":    {"h", "example.org", "localhost"},
+	"RUN70K": {rep("a", 70000), rep("a.", 35000), rep("1", 70000)}, "RUN64K": {rep("b", 65536), rep("b", 65535), rep("b ", 32769)},
 	"esc-u0041": {"\\u0041", "\\n"}, "esc-ud800": {"\\ud800", "\\u12"}, "http://h": {"http://h", "//h/p?q#f"},
 	"UL55": {rep("中", 55), rep("é", 100), rep("я", 60) + "A"}, "UL85": {rep("中", 85), rep("ß", 120)},
 }
@@ -254,13 +255,13 @@ func (fd *feeder) feedString(st *state, s string) {
 		_ = st.dur.String()
 	})
 	c("hostsfile.Parse", func() {
-		if len(s) < 60000 {
+		if len(s) < 1<<20 {
 			errStr(hostsfile.Parse(discardSet{}, strings.NewReader(s), nil))
 			errStr(hostsfile.Parse(hostsfile.FuncSet(func(*hostsfile.Record) {}), strings.NewReader(s), make([]byte, 0, 16)))
 		}
 	})
 	c("hostsfile.NewDefaultStorage", func() {
-		if len(s) < 60000 {
+		if len(s) < 1<<20 {
 			st, err := hostsfile.NewDefaultStorage(strings.NewReader(s))
 			errStr(err)
 			if st != nil {
@@ -298,7 +299,10 @@ func (fd *feeder) feedString(st *state, s string) {
 	c("stringutil.ContainsFold", func() {
 		_ = stringutil.ContainsFold(s, s)
 		for _, cut := range []int{1, len(s) / 2, len(s) - 1} {
-			if cut > 0 && cut < len(s) {
+			// ContainsFold is a naive O(len(s)*len(substr)) search: with two operands of
+			// tens of kilobytes a call takes longer than the hang watchdog allows, which
+			// is slow, not unbounded.  Long needles are only tried on inputs up to 8 KiB.
+			if cut > 0 && cut < len(s) && len(s) <= 8192 {
 				_ = stringutil.ContainsFold(s, s[cut:])
 				_ = stringutil.ContainsFold(s, s[:cut])
 				_ = stringutil.ContainsFold(s[cut:], s)
